@@ -47,6 +47,12 @@ func genC17(r *vh.Runner) {
 			c.Bubble(func() { transportProgram(r, c, i) })
 		})
 	}
+	nc := r.Pick(96, 3000)
+	for i := 0; i < nc; i++ {
+		r.Case(fmt.Sprintf("close-at-handshake-end/%d", i), map[string]any{"case": i}, func(c *vh.Case) {
+			c.Bubble(func() { closeAtHandshakeEnd(r, c, i) })
+		})
+	}
 	nh := r.Pick(24, 400)
 	for i := 0; i < nh; i++ {
 		r.Case(fmt.Sprintf("hs-timeout/%d", i), map[string]any{"case": i}, func(c *vh.Case) {
